@@ -79,6 +79,14 @@ def evidence(ctx, r, rule):
     ctx.coverage["distribution"] = r["distribution"]
     ctx.coverage["throughput_programs_per_s"] = r["throughput_programs_per_s"]
     ctx.coverage["generator_cpu_s"] = r["generator_cpu_s"]
+    by = {}
+    for kind in ("c02", "c08", "crashes", "rejected"):
+        for c in r[kind]:
+            by.setdefault(c.get("profile", "?"), {}).setdefault(kind, 0)
+            by[c.get("profile", "?")][kind] += 1
+    for p, d in r["distribution"].items():
+        by.setdefault(p, {})["cases"] = d["programs"]
+    ctx.coverage["cases_by_profile"] = by
     ctx.coverage["cases"] = r["cases"]
     ctx.coverage["agreeing_cases"] = r["agree"]
     ctx.coverage["skipped"] = {"vm stack/heap limit reached": r["limits"],
